@@ -54,6 +54,13 @@ WATCHDOG_S = int(os.environ.get('VERIF_WATCHDOG_S', '120'))
 
 
 def _on_alarm(signum, frame):
+    # the exception may be swallowed on its way out (asyncio stores a BaseException raised inside a task and the
+    # proxy's loop then simply ends): the fact that the guard fired is recorded here
+    w = World.current
+    if w is not None:
+        w.hung = True
+        w.run_exc = 'Watchdog: execution did not return within %d s (SUT blocked or spinning)' % \
+            int(w.scn.features.get('_watchdog', WATCHDOG_S))
     raise Watchdog()
 
 
@@ -364,6 +371,8 @@ class Peer:
     def readable(self):
         if self.closed or self.eof or not self.reading:
             return False
+        if getattr(self, 'sequential', False) and self.outbox:
+            return False
         try:
             _c_recv(self.sock, 1, socket.MSG_PEEK)
             return True
@@ -619,14 +628,18 @@ class HttpOrigin(Behaviour):
     """HTTP origin: h11 parses what arrives; after the k-th complete request it sends the
     k-th scripted response (list of pieces), then the optional action ('close'/'shutdown_wr')."""
 
-    def __init__(self, responses, then=None, respond=None):
+    def __init__(self, responses, then=None, respond=None, sequential=False):
         self.responses = responses
         self.then = then or {}
         self.respond = respond
+        # an ordinary sequential server: it writes a whole response before it reads on (while a response is
+        # being sent nothing is read from the connection)
+        self.sequential = sequential
 
     def on_accept(self, conn):
         import h11
         conn.h11 = h11.Connection(our_role=h11.SERVER, max_incomplete_event_size=1 << 20)
+        conn.sequential = self.sequential
         conn.requests = []
         conn.cur = None
         conn.h11_error = None
@@ -1121,13 +1134,13 @@ class WorldImpl(World):
             use_alarm = threading.current_thread() is threading.main_thread()
             if use_alarm:
                 old_handler = signal.signal(signal.SIGALRM, _on_alarm)
-                signal.alarm(WATCHDOG_S)
+                signal.alarm(int(scn.features.get('_watchdog', WATCHDOG_S)))
             try:
                 self._run_mode()
             except KeyboardInterrupt:
                 pass
             except Watchdog:
-                self.run_exc = 'Watchdog: execution did not return within %d s (SUT blocked or spinning)' % WATCHDOG_S
+                self.run_exc = 'Watchdog: execution did not return within %d s (SUT blocked or spinning)' % int(scn.features.get('_watchdog', WATCHDOG_S))
                 self.hung = True
             except BaseException as e:  # noqa
                 self.run_exc = '%s: %s' % (type(e).__name__, e)
@@ -1302,6 +1315,7 @@ def explore(scn, bound, check, first=None, cap=None, stats=None, kinds_cost=None
     else:
         stack = [tuple(first)]
     root = first is None
+    hangs = 0
     while stack:
         prefix = stack.pop()
         w = execute(scn, prefix)
@@ -1320,6 +1334,16 @@ def explore(scn, bound, check, first=None, cap=None, stats=None, kinds_cost=None
         if cap is not None and st.executions >= cap:
             st.capped += 1
             break
+        if w.hung:
+            # an execution that hangs (already a violation of whatever is being checked) costs WATCHDOG_S of
+            # real time; a tree that hangs everywhere must not take hours to say so: later executions of this
+            # worker get a shorter guard, and a scenario is abandoned (counted as capped) after three hangs
+            global WATCHDOG_S
+            WATCHDOG_S = min(WATCHDOG_S, 15)
+            hangs += 1
+            if hangs >= 3:
+                st.capped += 1
+                break
         ndev = sum(1 for c in prefix if c)
         if ndev >= bound:
             continue
